@@ -8,23 +8,39 @@ package main
 // the address family of the Service's cluster IPs (internal/ipfamily.ForService) and the user's explicit request
 // (annotation or spec.loadBalancerIP) are read-only functions of the Service
 //@ ufun WantIPs(*v1.Service) []net.IP
+// getDesiredLbIPs: WantIPs(svc) only names the returned list (assumed clause [named]); what the list is, is proved:
+// nothing when neither the annotation nor spec.loadBalancerIP is set, an error when both are, the parsed
+// spec.loadBalancerIP, or the parsed comma-separated annotation entries in order (an error if one does not parse).
+//@ fun LbIPsAnnot(svc *v1.Service) string := ite(AnnotationLoadBalancerIPs in svc.Annotations, svc.Annotations[AnnotationLoadBalancerIPs], ite(DeprecatedAnnotationLoadBalancerIPs in svc.Annotations, svc.Annotations[DeprecatedAnnotationLoadBalancerIPs], ""))
 //@ func getDesiredLbIPs
-//@   trusted
-//@   ensures result2 != nil ==> result0 == nil
-//@   ensures result2 == nil ==> result0 == WantIPs(svc)
+//@   requires svc != nil
+//@   ensures [errNil] result2 != nil ==> result0 == nil
+//@   ensures assumed [named] result2 == nil ==> result0 == WantIPs(svc)
+//@   ensures [none] LbIPsAnnot(svc) == "" && svc.Spec.LoadBalancerIP == "" ==> result0 == nil && result2 == nil
+//@   ensures [both] LbIPsAnnot(svc) != "" && svc.Spec.LoadBalancerIP != "" ==> result2 != nil
+//@   ensures [spec] LbIPsAnnot(svc) == "" && svc.Spec.LoadBalancerIP != "" ==> (result2 == nil) == (net.parseIP(svc.Spec.LoadBalancerIP) != nil)
+//@   ensures [specIP] LbIPsAnnot(svc) == "" && svc.Spec.LoadBalancerIP != "" && result2 == nil ==> len(result0) == 1 && sameSlice(result0[0], net.parseIP(svc.Spec.LoadBalancerIP))
+//@   ensures [annot] LbIPsAnnot(svc) != "" && svc.Spec.LoadBalancerIP == "" && result2 == nil ==> len(result0) == len(strings.Split(LbIPsAnnot(svc), ","))
+//@       && (forall k int :: 0 <= k && k < len(result0) ==> result0[k] != nil && sameSlice(result0[k], net.parseIP(strings.TrimSpace(strings.Split(LbIPsAnnot(svc), ",")[k]))))
 //@   modifies fresh []net.IP, fresh []string, fresh []interface{}
+//@   loop 1 binds desiredLbIPStr
+//@   loop 1 invariant (desiredLbIPs == nil || fresh(desiredLbIPs)) && len(desiredLbIPs) == iter
+//@   loop 1 invariant forall k int :: 0 <= k && k < iter ==> desiredLbIPs[k] != nil && sameSlice(desiredLbIPs[k], net.parseIP(strings.TrimSpace(desiredLbIPsSlice[k])))
 //@ func valueForAnnotation
 //@   ensures result == ite(stableAnnotation in annotations, annotations[stableAnnotation], ite(deprecatedAnnotation in annotations, annotations[deprecatedAnnotation], ""))
 //@   modifies nothing
+// SharingKey: the allow-shared-ip annotation, the current spelling winning over the deprecated one
 //@ func SharingKey
-//@   trusted
 //@   pure
+//@   requires svc != nil
+//@   ensures result == ite(AnnotationAllowSharedIP in svc.Annotations, svc.Annotations[AnnotationAllowSharedIP], ite(DeprecatedAnnotationAllowSharedIP in svc.Annotations, svc.Annotations[DeprecatedAnnotationAllowSharedIP], ""))
 //@   modifies nothing
 
 // allocateIPs: an explicit address request is honoured exactly or refused (also when it contradicts the requested
 // pool: the tentative assignment is undone); a requested pool is the only pool used; otherwise automatic allocation.
 //@ func (*controller).allocateIPs
 //@   requires c != nil && allocator.AllocatorOK(c.ips) && svc != nil && c.ips.allocated[key] == nil && lockstate(c.ips.countersMutex) == 0
+//@   requires [svcPorts] k8salloc.SvcPortsOK(svc)
 //@   ensures [inv] allocator.Inv(c.ips)
 //@   ensures [unlocked] lockstate(c.ips.countersMutex) == 0 && lockframe(c.ips.countersMutex)
 //@   ensures [others] forall s string :: s != key ==> c.ips.allocated[s] == old(c.ips.allocated[s])
